@@ -28,14 +28,14 @@ type mwrite struct {
 }
 
 type lsmState struct {
-	opts     Options
-	nextTs   uint64
-	writes   []mwrite
-	discard  uint64
-	keys     []string
-	oracle   string           // which property's oracle is active: c12 c13 c14 c36 c07 all
-	created  map[uint64]int64 // table id -> virtual creation time (unix nano)
-	seqno    int
+	opts    Options
+	nextTs  uint64
+	writes  []mwrite
+	discard uint64
+	keys    []string
+	oracle  string           // which property's oracle is active: c12 c13 c14 c36 c07 all
+	created map[uint64]int64 // table id -> virtual creation time (unix nano)
+	seqno   int
 }
 
 func (st *lsmState) maxTs() uint64 {
@@ -134,7 +134,11 @@ func l0Count(db *DB) int { return db.lc.levels[0].numTables() }
 
 // lsmFlush rotates the active memtable exactly as ensureRoomForWrite does and waits for the
 // flusher goroutine to put the table into L0.
-func lsmFlush(db *DB) bool {
+func lsmFlush(db *DB) bool { return lsmFlushMode(db, false) }
+
+// lsmFlushMode: polling=true is for callers running as a scheduled harness thread (they must not
+// call synctest.Wait): they sleep on the virtual clock until the flusher has emptied db.imm.
+func lsmFlushMode(db *DB, polling bool) bool {
 	db.lock.Lock()
 	if db.mt == nil || db.mt.sl.Empty() {
 		db.lock.Unlock()
@@ -153,7 +157,19 @@ func lsmFlush(db *DB) bool {
 		return false
 	}
 	db.lock.Unlock()
-	synctest.Wait()
+	if !polling {
+		synctest.Wait()
+		return true
+	}
+	for i := 0; i < 100000; i++ {
+		db.lock.RLock()
+		n := len(db.imm)
+		db.lock.RUnlock()
+		if n == 0 {
+			break
+		}
+		time.Sleep(time.Millisecond)
+	}
 	return true
 }
 
